@@ -100,7 +100,7 @@ RISK_AGG = 'bodyless_aggregation_layout'
 # generated @OrderBy annotation and get rewritten twice) while the C++ parser accepts.
 # VERIF_SYNTAX_WIDEN_DEN_AGG=1 generates the shape again (C06 then reports the bucket
 # cpp_accepts_py_internal:KeyError:parse.py:Convert).
-DENOTATION_AGG_NEEDS_BODY = os.environ.get('VERIF_SYNTAX_WIDEN_DEN_AGG', '0') != '1'
+DENOTATION_AGG_NEEDS_BODY = os.environ.get('VERIF_SYNTAX_WIDEN_DEN_AGG', '1') != '1'   # widened by default since fix 35d3486
 
 # DOMAIN RESTRICTION (not a finding).  '..' literals are Python literals for the Python
 # parser (ast.literal_eval) and "a conservative subset of Python's string escapes" for
@@ -386,7 +386,8 @@ class Gen(object):
             base = [('E', self.expr(d + 1, operand=True, force=True))]
         out = base
         for _ in range(self.pick([1, 1, 2])):
-            out = out + [self.T('.', 'sep'), self.T(self.pick(FIELDS), 'field', glue=True)]
+            out = out + [self.T('.', 'sep', glue=True),      # 'r .f = e' reads as the aggregation 'r .f= e'
+                         self.T(self.pick(FIELDS), 'field', glue=True)]
         return out
 
     def arraysub(self, d):
